@@ -22,14 +22,15 @@ Reusable model file (no Mathlib; raw operator classes).  Transcription of the co
 * `init`, `step` — `pipeline.init`, `pipeline.step` (`kinematics.inverse` and `contact.get` are
   parameters, `sys.enable_fluid` is taken to be false).
 
-**Defects of the pinned tree that are modelled as they are** (they belong to C06; see
+**Defects of the pinned tree and how they are modelled** (they belong to C06; see
 `notes/C04.md` for what changes when the fixes land):
 
 * D3 — `resolvePosition` with no contact pair (`cs = []`, python `contact is None`) returns
   `state.x_i` **without** renormalising the quaternions that `positionUpdate` has just changed
   additively;
-* D4 — `sphericalize` pads the unused axes of a 1- or 2-dof link with the limits `(-inf, inf)` when
-  `dof.limit is None` (`hasLimit = false`) instead of freezing them at `(0, 0)`.
+* D4 — FIXED in `/repo` (commit 0130879) and in this model: `sphericalize` freezes the unused axes
+  of a 1- or 2-dof link at `(0, 0)` also when `dof.limit is None` (`hasLimit = false`); before the
+  fix that branch padded them with `(-inf, inf)`.
 -/
 set_option linter.unusedSectionVars false
 namespace Brax
@@ -120,8 +121,9 @@ structure Axis3 (α : Type) where
 
 /-- `_sphericalize(sys, j)` for one link: three padded axes and the joint frame.
 `pad_free`: limits `(-inf, inf)`, motion and frame `eye(3)`, parity 1.
-`pad_x_dof`: the link's own dofs, then `3 - x` zero motions whose limits are `0` when
-`dof.limit` exists and `(-inf, inf)` when `dof.limit is None` (defect D4, as in the code). -/
+`pad_x_dof`: the link's own dofs (limits `dof.limit`, or `(-inf, inf)` when `dof.limit is None`),
+then `3 - x` zero motions frozen at the limits `(0, 0)` in both cases (this is the code after the
+`fix:` commit 0130879 for defect D4; before it the `None` branch padded with `(-inf, inf)`). -/
 def sphericalize (hasLimit : Bool) (l : Kin.LinkIn α) : List (Axis3 α) × JointFrame α :=
   match l.typ with
   | .free =>
@@ -130,7 +132,7 @@ def sphericalize (hasLimit : Bool) (l : Kin.LinkIn α) : List (Axis3 α) × Join
   | _ =>
     let own : List (Axis3 α) := l.dofs.map fun d =>
       if hasLimit then ⟨d.lo, d.hi, d.motion⟩ else ⟨none, none, d.motion⟩
-    let padAxis : Axis3 α := if hasLimit then ⟨some 0, some 0, ⟨0, 0⟩⟩ else ⟨none, none, ⟨0, 0⟩⟩
+    let padAxis : Axis3 α := ⟨some 0, some 0, ⟨0, 0⟩⟩
     let fr := match linkToJointFrame (l.dofs.map (·.motion)) with
       | some f => f
       | none => ⟨eye, eye, 1⟩   -- excluded by `Sys.WF` (1–3 dofs)
